@@ -226,6 +226,82 @@ func stress(seed uint64, tr *tracker) (polled int64, err error) {
 	return fetched.Load(), nil
 }
 
+// topicChurn: a direct consumer + producer whose topic maps are churned: topics
+// are added to and purged from consuming and producing in tight loops while
+// lock-free readers of the published maps (GetConsumeTopics, Produce's topic
+// lookup, the metadata loop, polls) run. The purges here do not rejoin a group,
+// so hundreds of them happen per run (stress() manages two).
+func topicChurn(seed uint64, tr *tracker) (purges int64, err error) {
+	env, err := e2e.NewEnv(false, 2, nil, kfake.SeedTopics(2, "tc-a", "tc-p", "tc-extra"))
+	if err != nil {
+		return 0, err
+	}
+	defer env.Close()
+	cl, err := env.NewClient(kgo.ConsumeTopics("tc-a"), kgo.ConsumeResetOffset(kgo.NewOffset().AtStart()),
+		kgo.FetchMaxWait(50*time.Millisecond), kgo.MetadataMinAge(10*time.Millisecond))
+	if err != nil {
+		return 0, err
+	}
+	stop := make(chan struct{})
+	var wg sync.WaitGroup
+	var np atomic.Int64
+	spawn := func(name string, fn func(rng *rand.Rand)) {
+		wg.Add(1)
+		go func() {
+			defer wg.Done()
+			rng := rand.New(rand.NewPCG(seed, uint64(len(name))))
+			for {
+				select {
+				case <-stop:
+					return
+				default:
+				}
+				done := tr.enter(name)
+				fn(rng)
+				done()
+				e2e.Jitter(rng, 300)
+			}
+		}()
+	}
+	spawn("AddConsumeTopics+PurgeTopicsFromConsuming", func(rng *rand.Rand) {
+		cl.AddConsumeTopics("tc-extra")
+		e2e.Jitter(rng, 500)
+		cl.PurgeTopicsFromConsuming("tc-extra")
+		np.Add(1)
+	})
+	spawn("GetConsumeTopics", func(rng *rand.Rand) { cl.GetConsumeTopics() })
+	spawn("GetConsumeTopics", func(rng *rand.Rand) { cl.GetConsumeTopics() })
+	spawn("Produce", func(rng *rand.Rand) {
+		t := []string{"tc-a", "tc-p"}[rng.IntN(2)]
+		cl.Produce(context.Background(), &kgo.Record{Topic: t, Value: []byte("v")}, nil)
+	})
+	spawn("TryProduce", func(rng *rand.Rand) {
+		cl.TryProduce(context.Background(), &kgo.Record{Topic: "tc-p", Value: []byte("w")}, nil)
+	})
+	spawn("PurgeTopicsFromProducing", func(rng *rand.Rand) {
+		e2e.Jitter(rng, 2000)
+		cl.PurgeTopicsFromProducing("tc-p")
+		np.Add(1)
+	})
+	spawn("PollFetches", func(rng *rand.Rand) {
+		ctx, cancel := context.WithTimeout(context.Background(), 20*time.Millisecond)
+		cl.PollFetches(ctx)
+		cancel()
+	})
+	spawn("ForceMetadataRefresh", func(rng *rand.Rand) {
+		cl.ForceMetadataRefresh()
+		time.Sleep(15 * time.Millisecond)
+	})
+	time.Sleep(time.Duration(1200+seed%600) * time.Millisecond)
+	close(stop)
+	wg.Wait()
+	done := tr.enter("Close")
+	cl.Close()
+	done()
+	fmt.Printf("topic churn seed %d: %d purges\n", seed, np.Load())
+	return np.Load(), nil
+}
+
 func TestCheck(t *testing.T) {
 	r := vh.Start(t, "C41")
 	if os.Getenv("VERIF_C41") == "" {
@@ -303,6 +379,20 @@ func TestCheck(t *testing.T) {
 		stressPolled += n
 		runs++
 	}
+	var churnPurges int64
+	nT := r.Pick(3, 20)
+	if os.Getenv("VERIF_C41_ONLY") != "" && os.Getenv("VERIF_C41_ONLY") != "t" {
+		nT = 0
+	}
+	for i := 0; i < nT; i++ {
+		n, err := topicChurn(uint64(r.Seed)<<20|uint64(i), tr)
+		if err != nil {
+			fmt.Println("topic churn error:", err)
+			continue
+		}
+		churnPurges += n
+		runs++
+	}
 	var ov []string
 	for k, v := range tr.overlap {
 		if v {
@@ -310,6 +400,6 @@ func TestCheck(t *testing.T) {
 		}
 	}
 	sort.Strings(ov)
-	vh.C41Obs(runs, ov, map[string]any{"producer_scenarios": nP, "consumer_scenarios": nC, "group_scenarios": nG, "api_mix_stress_runs": nS, "api_mix_stress_records_polled": stressPolled})
+	vh.C41Obs(runs, ov, map[string]any{"producer_scenarios": nP, "consumer_scenarios": nC, "group_scenarios": nG, "api_mix_stress_runs": nS, "api_mix_stress_records_polled": stressPolled, "topic_churn_runs": nT, "topic_churn_purges": churnPurges})
 	fmt.Printf("C41 workloads done: %d runs, %d overlapping API pairs\n", runs, len(ov))
 }
